@@ -749,6 +749,20 @@ impl<Ix: SIx> Driver<Ix> {
                 self.serde_op(&fmt, &to, &mutation, log, rng);
                 return;
             }
+            "ac_wrap" if op["via"] == "with_capacity" => {
+                // Create::with_capacity on the wrapper itself (only for an empty inner graph): more edges than nodes hinted
+                use petgraph::data::Create;
+                let (n, _, _, _) = self.counts();
+                assert_eq!(n, 0, "with_capacity wrap needs an empty graph");
+                let newobj = match &self.obj {
+                    Obj::GD(_) => Obj::AGD(<Acyclic<Graph<i32, i32, petgraph::Directed, Ix>> as Create>::with_capacity(1, 9)),
+                    Obj::SD(_) => Obj::ASD(<Acyclic<StableGraph<i32, i32, petgraph::Directed, Ix>> as Create>::with_capacity(2, 9)),
+                    _ => panic!("ac_wrap on a non-directed or already wrapped container"),
+                };
+                self.obj = newobj;
+                want_st = true;
+                rs("ok")
+            }
             "ac_wrap" => {
                 let via_tryfrom = op["via"] == "try_from";
                 let (newobj, ret) = match &self.obj {
@@ -1246,7 +1260,13 @@ pub fn acyclic_segment<Ix: SIx>(ixname: &str, stable: bool, len: usize, rng: &mu
     let mut d: Driver<Ix> = Driver::new(ixname);
     let ixmax = maxix::<Ix>();
     d.apply(&json!({"op":"reset","kind": if stable {"stable"} else {"graph"},"directed":true,"ctor":"with_capacity"}), log, rng);
+    // one segment in five: the wrapper is created empty through Create::with_capacity and filled through its own API
+    let from_empty = rng.chance(1, 5);
+    if from_empty {
+        d.apply(&json!({"op":"ac_wrap","via":"with_capacity"}), log, rng);
+    }
     // initial graph: a few nodes, edges mostly low -> high (acyclic) and sometimes not
+    if !from_empty {
     let n0 = 1 + rng.below(5.min(ixmax));
     for _ in 0..n0 { d.apply(&json!({"op":"add_node"}), log, rng); }
     let cyclic_start = rng.chance(1, 4);
@@ -1260,6 +1280,7 @@ pub fn acyclic_segment<Ix: SIx>(ixname: &str, stable: bool, len: usize, rng: &mu
         d.apply(&json!({"op":"remove_node","a":rng.below(n0)}), log, rng);   // a vacancy before wrapping
     }
     d.apply(&json!({"op":"ac_wrap","via": if rng.chance(1,2) {"try_from"} else {"try_from_graph"}}), log, rng);
+    }
     let mut steps = 0;
     while steps < len {
         steps += 1;
